@@ -417,6 +417,36 @@ def check_dup(rep, prog, W):
         rep.add('R-dup-all', 'upipe_dup_input', HOLDS, fn.loc, exits=len(res['exit_how']))
 
 
+def check_need_output(rep, prog):
+    """nothing is withheld from an output for the reason that no pipe is plugged there yet"""
+    from upv.facts import walk
+    rep.rule('R-need-output', 'no delivery through the output helper (a call of the X_output generated by UPIPE_HELPER_OUTPUT) is control-dependent on a test of the '
+             'helper\'s own output field: with nothing plugged the helper throws need_output, which is how an application plugs an output lazily; code that skips '
+             'the call when the field is NULL never asks, and that output receives nothing (unanimous in the tree: 0 of ~380 deliveries are guarded that way)')
+    n = 0
+    for uname, u in sorted(prog.units.items()):
+        for fn in sorted(u.funcs.values(), key=lambda f: f.name):
+            if not fn.blocks or fn.macro:
+                continue
+            ev = pr.Events(fn)
+            outs = [p_ for p_ in ev.find(pr.m_call(r'\w+_output$'))
+                    if u.funcs.get(p_[2]['fn']) is not None and u.funcs[p_[2]['fn']].macro == 'UPIPE_HELPER_OUTPUT']
+            if not outs:
+                continue
+
+            def tests_output(ctree, pol, fn=fn):
+                return any(x.get('k') == 'mem' and x.get('f') == 'output' and x.get('t') == 'struct upipe *' for x in walk(fn.resolve(ctree)))
+            for o in outs:
+                n += 1
+                if pr.control_dependent(fn, ev, o, tests_output):
+                    rep.add('R-need-output', '%s:%s@%s' % (fn.name, o[2]['fn'], o[2].get('l')), VIOLATED, '%s:%s' % (fn.file, o[2].get('l')),
+                            what='%s delivers through %s (line %s) only when the output field is set: an output with nothing plugged yet is skipped instead of '
+                                 'being asked for (need_output is never thrown), and misses every buffer' % (fn.name, o[2]['fn'], o[2].get('l')))
+    rep.add('R-need-output', 'all-units', HOLDS, '', deliveries=n)
+    if n < 100:
+        raise facts.AnalysisBroken('R-need-output found only %d deliveries through the output helper' % n)
+
+
 def run(tier='quick', repo=None):
     repo = repo or facts.REPO
     rep = Report(PROP, tier)
@@ -435,6 +465,7 @@ def run(tier='quick', repo=None):
     check_1to1(rep, prog, W)
     check_fifo(rep, prog)
     check_dup(rep, prog, W)
+    check_need_output(rep, prog)
     check_touch(rep, prog)
     check_payload(rep, prog)
     rep.assumptions = [
